@@ -48,7 +48,7 @@ def work(ctx, tier):
                 m = len(c["outcomes"])
                 c["durations"] = [rng.choice(gen.DUR) for _ in range(m)]
                 c["overshoot"] = [rng.choice(gen.OVERSHOOT) for _ in range(m)]
-                c["strat_values"] = [rng.choice(gen.STRAT_VALUES + [sc["cfg"]["deadline_s"], sc["cfg"]["deadline_s"] + gen.G]) for _ in range(m)]
+                c["strat_values"] = [rng.choice(gen.STRAT_VALUES_HUGE + [sc["cfg"]["deadline_s"], sc["cfg"]["deadline_s"] + gen.G]) for _ in range(m)]
                 if c.get("handler"):
                     c["handler"] = [rng.choice(["sleep", "sleep", "sleep", "defer", "abort"]) for _ in range(m)]
         for e in common.pick_entries(rng, rig.ENTRIES, 3):
